@@ -15,6 +15,9 @@
     middle of a socket write (the write deadline expires; the peer is still there); the direct quick configuration
     explores stalls with two senders too.  Two more broken designs are refuted: a dial loop that does not cover the whole
     server list (Recovers), a flush whose deadline expired resetting the writer onto the same connection (FramesWhole).
+    MC_OneWay_widle / _widle2: the worker, idle in DIRECT mode, flushing the shared writer ON ITS OWN without the send lock
+    (OneWay!WorkerIdleFlush) while a sender is between its buffered write and the end of its flush, no fault anywhere:
+    refuted (InOrderAtMostOnce: a frame arrives twice; FramesWhole: a copy of its beginning is wedged into the stream).
 (A) Trace_OneWay: the real OneWayTcpClient against a scripted loopback collector: concurrent senders, queue mode
     (SendAndClear and the background worker), cut scripts, listener outages, frames larger than the writer buffer;
     every pack goes in through one of the public entry points (Send, SendFlush false/true) with plain or decorated
@@ -32,7 +35,12 @@
     objects shared between sends; IDLE PERIODS longer than the client's timers (gen idle): the queue empty for longer
     than the drainer's poll (5 s, a constant: 1..2 polls time out) before the next packs, and a short write deadline
     (Timeout 300..500 ms by assignment) in force on a healthy connection that stays idle for longer than it before
-    frames of every size class; Sent/Flushed carry early = the expired deadline was reported sooner than Timeout after
+    frames of every size class; a HEALTHY BUT SLOW collector with the background worker running in direct mode (gen slow):
+    the collector stops reading in the middle of an early frame and stays connected, 1..3 senders fill the socket, one
+    sits in its flush (or a write-through) and the others behind the send lock for 6.5 s (thorough: also 12 s, 31 s) =
+    1, 2, 6 polls of the worker, under the default write deadline of 60 s; then the collector reads everything: every
+    frame exactly once, whole, in acceptance order, and every hook event made by the worker on its own (actor W in
+    direct mode: Sent/Flushed/Close from process()) has no step in the specification; Sent/Flushed carry early = the expired deadline was reported sooner than Timeout after
     the send began -- the specification has no explanation for that (no peer stalls faster than the deadline).
     Hook events are sequenced under the send lock by one atomic counter.  What the collector read on every connection
     is a prophecy (kernel timing is not observable); the specification decides whether the outcome each socket write
@@ -51,7 +59,8 @@ MODE_ONLY = {
 
 # steps of the deliberately broken designs (enabled only in the configurations that must be refuted)
 BROKEN_ONLY = {"DoWorkerDialRacy", "WorkerDialStart", "WorkerDialEnd", "DoEnqueueEvict", "EnqueueEvict", "BuildStale",
-               "DoConnectFailPartial", "ConnectFailPartial", "DoFlushResetWriter", "FlushResetWriter"}
+               "DoConnectFailPartial", "ConnectFailPartial", "DoFlushResetWriter", "FlushResetWriter",
+               "DoWorkerIdleFlush", "WorkerIdleFlush"}
 
 
 def mc_many(run, jobs, pool=4):
@@ -152,6 +161,10 @@ def body(run):
         dict(cfg="MC_OneWay_evict.cfg", expect="NoLossSafe"),
         dict(cfg="MC_OneWay_dialpart.cfg", expect="Recovers"),
         dict(cfg="MC_OneWay_resetwriter.cfg", expect="FramesWhole"),
+        # the worker, idle in DIRECT mode, flushing the shared writer on its own (no send lock) while a sender is between
+        # its buffered write and the end of its flush, no fault anywhere: a frame twice / a copy of its beginning wedged in
+        dict(cfg="MC_OneWay_widle.cfg", expect="InOrderAtMostOnce"),
+        dict(cfg="MC_OneWay_widle2.cfg", expect="FramesWhole"),
     ], pool=run.pick(4, 6))
 
     # ---- (A) + (B)
@@ -180,6 +193,7 @@ def body(run):
     run.selftest(out, rest, gen="multi", dfs=True, field="addr")
     run.selftest(out, rest, gen="stall", dfs=True, field="tmo")
     run.selftest(out, rest, gen="idle", dfs=True, field="lic")
+    run.selftest(out, rest, gen="slow", dfs=True, field="dg")
     run.assumptions += [
         "the collector's record of every connection (frames parsed with encoding/binary, payload digests with crypto/sha256, "
         "how it ended the connection) is given to the specification as a prophecy; kernel timing is not observable, so "
@@ -225,7 +239,12 @@ def body(run):
         "a timeout of the gate schedules (250 ms for B to enter A's critical section; 300 ms for a sender to get past the lock while "
         "the worker sits in its dial) can only cost detection, never raise an alarm; a history in which a wait FOR a state ran into "
         "its bound (90 s) is void (not judged); more than 10% void histories are a machinery failure (exit 2)",
-        "the background worker runs in direct mode only in the wdial schedules (its poll period of 5 s makes it invisible to short free-running schedules)",
+        "the background worker runs in direct mode only in the wdial schedules (its poll period of 5 s makes it invisible to short "
+        "free-running schedules) and in gen slow, where a healthy collector that does not read (64 KiB receive buffer) holds a sender "
+        "in its flush for longer than the worker's poll: the hold is a plain wait (6.5 / 12 / 31 s), not an ordering -- if the senders "
+        "are not yet held up, or no poll of the worker falls into it (machine load), the history is an ordinary healthy one (detection "
+        "lost); nothing expires (write deadline 60 s); a hook called from process() in direct mode is attributed to actor W by the "
+        "call stack (runtime.Callers), not by timing",
         "packs are TextPacks with one record; the frame header is net type 10/0, 8-byte pcode, 8-byte license hash "
         "(computed in the harness with hash/crc32's table), 4-byte length; payload length and digest are computed with the standard library only",
         "deviation D1 of the code (no Close after a failed Flush in direct mode / SendAndClear; the next send fails and closes) is allowed by the specification",
